@@ -341,7 +341,7 @@ def fanout_complete(ctx):
                           ("the iterator is restricted by " + ",".join(adapt) if adapt else "the send inside the loop is not awaited"))
 
 
-@rule("C04.ROOT-BOOKKEEPING", ["C04", "C08"], """in the one-shot relay an Ok{Build|Service} addressed to Root removes the target from the corresponding set of
+@rule("C04.ROOT-BOOKKEEPING", ["C04", "C08", "C11", "C19", "C20"], """in the one-shot relay an Ok{Build|Service} addressed to Root removes the target from the corresponding set of
       unavailable roots, and the relay loop ends exactly when both sets are empty or a termination was received""", "K1", floor=3)
 def root_bookkeeping(ctx):
     r = ctx.r
@@ -367,7 +367,12 @@ def root_bookkeeping(ctx):
                     names = {a[1] for a in rel.prov.atoms(rl, interproc=False) if a[0] == "localname"}
                     removed_sets[k] = (rl, names)
             ctx.check(bool(rem), f"{lab}/Ok.{k}", [site(rel, b) for b in rem] or [rel.loc(min(R))],
-                      f"an Ok{{{k}}} addressed to Root does not remove the target from the unavailable-roots set on every path: the run would never be considered complete")
+                      f"an Ok{{{k}}} addressed to Root does not remove the target from the unavailable-roots set on every path: the run would never be considered complete", props=["C04", "C08"])
+            whole = [bb for bb in rem if re.search(r"HashSet::<[\w:&' ]*TargetId[,>]", callee_decl(rel.term(bb)))]
+            if rem:
+                ctx.check(len(whole) == len(rem), f"{lab}/Ok.{k}/whole-identity", [site(rel, b) for b in rem],
+                          "the unavailable-roots set is keyed by a component of the target identity (e.g. the bare name): two requested targets with the same name in different projects "
+                          "collapse into one entry and the run ends when the first of them is done", props=["C04", "C08", "C19"])
         # loop condition: the relay's outer loop exit must test is_empty of both root sets and the termination flag
         loops = rel.natural_loops()
         big = max(loops, key=lambda l: len(l[1])) if loops else None
@@ -389,7 +394,39 @@ def root_bookkeeping(ctx):
         empt = {t for t in tested if t[0] == "is_empty"}
         both = sum(1 for k, (rl, nm) in removed_sets.items() if any(("is_empty", n) in tested for n in nm)) if removed_sets else 0
         ctx.check(both >= 2, f"{lab}/loop-condition", [rel.loc(h)],
-                  f"the relay loop's exit condition does not test the emptiness of both unavailable-root sets (tests seen: {sorted(tested)})")
+                  f"the relay loop's exit condition does not test the emptiness of both unavailable-root sets (tests seen: {sorted(tested)})", props=["C04", "C08"])
+        # ... exactly: every way of leaving the loop through its condition has seen both sets empty, or a flag (the termination) set - not one set only, not
+        # "some service is already up"
+        def empties(nm):
+            def pred(o):
+                if o[0] != "call" or not o[1].endswith("::is_empty"):
+                    return False
+                return bool({a[1] for a in rel.prov.operand_atoms(o[3]["args"][0], interproc=False) if a[0] == "localname"} & nm)
+            return pred
+        def any_empty(o):
+            return o[0] == "call" and o[1].endswith("::is_empty")
+        early = []
+        common_names = set.intersection(*[nm for (rl, nm) in removed_sets.values()]) if removed_sets else set()
+        removed_sets = {k_: (rl, nm - common_names) for k_, (rl, nm) in removed_sets.items()}
+        if len(removed_sets) == 2 and all(nm for (rl, nm) in removed_sets.values()):
+            for e in exits:
+                if not (e.label and e.label[0] == "bool"):
+                    continue
+                for p_ in enumerate_paths(rel, start=h, stop_at={e.src}, within=blks):
+                    if not p_ and e.src != h:
+                        continue
+                    if p_ and p_[-1].dst != e.src:
+                        continue
+                    facts = path_facts(rel, p_ + [e])
+                    all_empty = all(has_fact(facts, "bool", True, empties(nm)) for (rl, nm) in removed_sets.values())
+                    # the decisive (last) test of an exit that has not seen both sets empty is a flag, not the emptiness of some set
+                    k_, v_, orig, _ = facts[-1]
+                    flagged = k_ == "bool" and not origin_matches(orig, any_empty, through_not=True)
+                    if not (all_empty or flagged):
+                        early.append(e)
+        ctx.check(not early, f"{lab}/loop-exit-exact", [site(rel, e.src) for e in early] or [rel.loc(h)],
+                  "the relay loop can be left although a requested build or service has not reported yet (one set empty, or another condition, is enough): messages stop being relayed "
+                  "and the remaining targets are never started", props=["C04", "C11", "C20"])
 
 
 def _collect_tests(d, out):
@@ -546,3 +583,25 @@ def success_sets_executed(ctx):
                 calls = [c for c in calls_to_role(r, a, setters, R) if (is_awaited(a, c[0]) or ctx.f.coroutine_of(callee_base(c[1])) is None) and _must_pass(a, R, c[0])]
                 ctx.check(bool(calls), f"{lab}/{what}.{v}", [site(a, c[0]) for c in calls] or [a.loc(min(R)) if R else a.loc()],
                           f"the `{v}` outcome does not go through the notifier that records the target as executed: a requester registering afterwards is never acknowledged")
+
+
+@rule("C04.PIPES-DRAINED", ["C04"], """a child process whose output is a pipe is never waited for before the pipe was read to its end (`Command::output` reads while it waits): a
+      command that prints more than the pipe buffer would block for ever, and zinoma with it""", "K4", floor=1)
+def pipes_drained(ctx):
+    f = ctx.f
+    n = 0
+    for (b, bb, t) in ctx.r.spawn_raw():
+        if t["callee"]["base"].endswith("Command::output"):
+            n += 1
+            ctx.ok(f"{short(b.name)}/output", [site(b, bb)], "`output()` drains the pipes while waiting")
+    for b in f.user_bodies():
+        piped = [bb for bb, t in b.calls() if t["callee"]["base"].endswith("Stdio::piped")]
+        if not piped:
+            continue
+        n += 1
+        reads = [bb for bb, t in b.calls() if re.search(r"::(read_to_end|read_to_string|read_line|lines|bytes|copy)$", t["callee"]["base"])]
+        waits = [bb for bb, t in b.calls() if re.search(r"Child::(status|wait)$", t["callee"]["base"])]
+        bad = [w for w in waits if not any(b.dominates(rd, w) for rd in reads)]
+        ctx.check(not bad, f"{short(b.name)}/wait-after-read", [site(b, w) for w in bad] or [site(b, piped[0])],
+                  "the child's exit is awaited before its output pipe was read: a command printing more than the pipe buffer never exits, and the run never terminates")
+    ctx.need(n >= 1, "process whose output is captured")
